@@ -3,6 +3,7 @@ package checks
 import (
 	"encoding/json"
 	"fmt"
+	"github.com/olric-data/olric/internal/cluster/partitions"
 	"strings"
 	"time"
 
@@ -27,13 +28,20 @@ type c05Case struct {
 	Mode   string `json:"mode"` // cut (refuse) | dead (killed, undetected)
 	MCQ    int    `json:"mcq"`
 	Gone   int    `json:"gone"` // number of members crashed+detected (mcq cases)
+	// OwnerEmpty: after the Put the partition owner's own copy is taken away (a primary owner that
+	// has not received the key: fresh after a take-over); the key lives on the backups only
+	OwnerEmpty bool `json:"owner_empty,omitempty"`
 }
 
 func (c c05Case) String() string {
 	if c.Kind == "mcq" {
 		return fmt.Sprintf("MemberCountQuorum=%d members-visible=%d", c.MCQ, 3-c.Gone)
 	}
-	return fmt.Sprintf("R=%d W=%d RQ=%d entry=%s unreachable-backups(put)=%b unreachable-backups(get)=%b mode=%s", c.R, c.W, c.RQ, c.Entry, c.PutCut, c.GetCut, c.Mode)
+	oe := ""
+	if c.OwnerEmpty {
+		oe = " owner-copy-removed-before-get"
+	}
+	return fmt.Sprintf("R=%d W=%d RQ=%d entry=%s unreachable-backups(put)=%b unreachable-backups(get)=%b mode=%s%s", c.R, c.W, c.RQ, c.Entry, c.PutCut, c.GetCut, c.Mode, oe)
 }
 
 func c05Cases(tier string) []c05Case {
@@ -53,6 +61,9 @@ func c05Cases(tier string) []c05Case {
 									continue // a killed member stays dead: only nested subsets make sense
 								}
 								cs = append(cs, c05Case{Kind: "rw", R: r, W: w, RQ: rq, PutCut: pc, GetCut: gc, Entry: e, Mode: m})
+								if r >= 2 && pc == 0 && m == "cut" {
+									cs = append(cs, c05Case{Kind: "rw", R: r, W: w, RQ: rq, PutCut: pc, GetCut: gc, Entry: e, Mode: m, OwnerEmpty: true})
+								}
 							}
 						}
 					}
@@ -182,6 +193,9 @@ func c05Run(cs c05Case) []c05Fail {
 		add("put-acknowledged-below-write-quorum/"+sig, "Put acknowledged with only %d reachable copies (WriteQuorum=%d)", canReach, cs.W)
 	}
 	// --- Get ---
+	if cs.OwnerEmpty {
+		owner.DB.VerifDMap().VerifRemove(partitions.PRIMARY, "d", partitions.HKey("d", key))
+	}
 	setCut(cs.GetCut, true)
 	mask := cs.GetCut
 	if cs.Mode == "dead" {
@@ -191,12 +205,20 @@ func c05Run(cs c05Case) []c05Fail {
 	g := kv.Get(key)
 	setCutOff(cs.GetCut)
 	gsig := fmt.Sprintf("R=%d/RQ=%d/entry=%s/mode=%s", cs.R, cs.RQ, cs.Entry, cs.Mode)
+	if cs.OwnerEmpty {
+		gsig += "/owner-empty"
+	}
 	switch {
 	case g.Err == "" && reach < cs.RQ:
 		add("get-value-below-read-quorum/"+gsig, "Get returned %q although only %d copies were obtainable (ReadQuorum=%d)", g.Val, reach, cs.RQ)
+	case r.Err == "" && storedNow > 0 && reach == 0 && g.Err == "notfound":
+		// one situation, whatever the configuration: nothing at all could be obtained (the owner
+		// holds no copy, every holder is unreachable) and the member answers not-found instead of
+		// the read-quorum error - see DESIGN 7.2 (known finding)
+		add("get-notfound-with-no-obtainable-copy", "key exists on %d copies, none obtainable (the owner holds no copy, every holder is unreachable), ReadQuorum=%d: Get answers not-found, the statement asks for the read-quorum error", storedNow, cs.RQ)
 	case r.Err == "" && storedNow > 0 && reach < cs.RQ && g.Err != "readquorum":
 		add("get-wrong-error-below-read-quorum/"+gsig, "key exists on %d copies, %d obtainable, ReadQuorum=%d: Get returned %q err=%q, expected the read-quorum error", storedNow, reach, cs.RQ, g.Val, g.Err)
-	case reach >= cs.RQ && storedNow == cs.R && g.Err != "":
+	case reach >= cs.RQ && (storedNow == cs.R || (cs.OwnerEmpty && storedNow == cs.R-1)) && g.Err != "":
 		add("get-failed-with-quorum-met/"+gsig, "all %d copies exist and %d are obtainable (ReadQuorum=%d) but Get failed with %q", storedNow, reach, cs.RQ, g.Err)
 	}
 	return fs
